@@ -93,9 +93,9 @@ pub fn run() -> i32 {
     let mut rep = Report::new(
         "lexical",
         if deep {
-            "DEEP: every string of length <= 2 over 46 characters + length 3 over 16 of them, in 12 contexts (compile + render); token soup of <= 3 tokens over 50 tokens in 6 contexts; 22 cycle programs in child processes; only a panic/abort/hang counts"
+            "DEEP: every string of length <= 2 over 46 characters + length 3 over 16 of them, in 12 contexts (compile + render); token soup of <= 3 tokens over 50 tokens in 6 contexts; 22 cycle programs and 6 layered-diamond programs (12 and 30 layers: exponentially many paths) in child processes with a 3 s limit; only a panic/abort/hang counts"
         } else {
-            "every string of length <= 2 over 46 characters (all Unicode white space, the lexers' punctuation, multi-byte letters) in 12 contexts (compile + render); token soup of <= 2 tokens over 50 tokens in 6 contexts; 22 cycle programs in child processes; only a panic/abort/hang counts"
+            "every string of length <= 2 over 46 characters (all Unicode white space, the lexers' punctuation, multi-byte letters) in 12 contexts (compile + render); token soup of <= 2 tokens over 50 tokens in 6 contexts; 22 cycle programs and 6 layered-diamond programs (12 and 30 layers: exponentially many paths) in child processes with a 3 s limit; only a panic/abort/hang counts"
         },
     );
     let mut fillers: Vec<String> = vec![String::new()];
@@ -134,7 +134,30 @@ pub fn run() -> i32 {
         }
     }
     let exe = std::env::current_exe().unwrap();
-    for (name, text) in ISOLATED {
+    // "within a time bound that grows gently with input size": inheritance / containment / alias structures that are small as TEXT
+    // but have exponentially many PATHS (layered diamonds: every definition of a layer refers to both definitions of the layer below)
+    let mut scaling: Vec<(String, String)> = vec![];
+    for layers in [12usize, 30] {
+        let mut i = String::from("module M\n");
+        let mut st = String::from("module M\n");
+        let mut al = String::from("module M\nstruct Leaf {}\n");
+        for k in 0..layers {
+            for j in ["a", "b"] {
+                let below = if k == 0 { String::new() } else { format!(" : L{}a, L{}b", k - 1, k - 1) };
+                i.push_str(&format!("interface L{k}{j}{below} {{ op{k}{j}() }}\n"));
+                let fields = if k == 0 { "x: bool".to_owned() } else { format!("x: L{}a, y: Sequence<L{}b>", k - 1, k - 1) };
+                st.push_str(&format!("struct L{k}{j} {{ {fields} }}\n"));
+                let under = if k == 0 { "Leaf".to_owned() } else { format!("Dictionary<L{}a, L{}b>", k - 1, k - 1) };
+                al.push_str(&format!("typealias L{k}{j} = {under}\n"));
+            }
+        }
+        al.push_str(&format!("struct User {{ u: L{}a }}\n", layers - 1));
+        scaling.push((format!("interface-layered-diamonds-{layers}"), i));
+        scaling.push((format!("struct-layered-diamonds-{layers}"), st));
+        scaling.push((format!("alias-layered-diamonds-{layers}"), al));
+    }
+    let isolated: Vec<(String, String)> = ISOLATED.iter().map(|(n, t)| (n.to_string(), t.to_string())).chain(scaling).collect();
+    for (name, text) in &isolated {
         let label = format!("isolated {name}: {:?}", text);
         rep.case(true, || label.clone());
         let out = std::process::Command::new("timeout").arg("3").arg(&exe).arg("one").arg(text).output();
